@@ -39,8 +39,11 @@ LEVEL = "fault_enumeration"
 ROBUST = os.path.join(SPECS, "robust")
 NPROC = min(16, os.cpu_count() or 4)
 
+# quick tier: entries every traversal / decoder hangs on - all their retype faults are applied, not a sample
+IMPORTANT_KEYS = {"DescendantFonts", "Kids", "Contents", "Resources", "Font", "Encoding", "ToUnicode", "W", "Widths",
+                  "Length", "Filter", "DecodeParms", "Root", "Pages", "Prev", "XRefStm", "Index", "Encrypt", "ID"}
 # quick tier: faults sampled per (seed, class, kind) stratum
-QUICK_PER_STRATUM = {"value": 3, "payload": 10, "file": 40, "xrefent": 2}
+QUICK_PER_STRATUM = {"value": 3, "payload": 8, "file": 25, "xrefent": 2}
 
 
 # ------------------------------------------------------------------------------------------------ Faults.tla
@@ -93,7 +96,8 @@ def stratum(fd):
 
 
 def sample_faults(faults, seed, descs):
-    """deterministic stratified sample: per (seed document, class, kind, target) a few faults.
+    """deterministic stratified sample: per (seed document, class, kind, target) a few faults, plus every retype fault
+    at the structurally important entries (IMPORTANT_KEYS).
     Strings that are no ciphertext (rawstr, encrypted seeds) are stratified further - by form, by whether the site
     sits in a directly stored object (only those are deciphered string by string: members of object streams and the
     trailer are not) and by whether the site held a string before - so that every quick run plants short raw strings
@@ -102,13 +106,18 @@ def sample_faults(faults, seed, descs):
     direct = {d["name"]: set(d["direct_owners"]) for d in descs}
     base = {d["name"]: {x["id"]: x["base"] for x in d["sites"]} for d in descs}
     groups = collections.OrderedDict()
+    out = []
     for s, fd in faults:
+        if fd["kind"] == "retype" and fd["site"].rsplit("/", 1)[-1] in IMPORTANT_KEYS and "/" in fd["site"]:
+            # structurally important entries: every retype representative (empty and non-empty array / dictionary /
+            # string, scalars, each also behind a reference) is applied in every quick run
+            out.append((s, fd))
+            continue
         key = (s,) + stratum(fd)
         if fd["kind"] == "rawstr":
             owner = fd["site"].split("/")[0]
             key += (fd["variant"], owner in direct[s], base[s].get(fd["site"]) == "string")
         groups.setdefault(key, []).append((s, fd))
-    out = []
     for key, g in groups.items():
         k = QUICK_PER_STRATUM[key[1]]
         out.extend(g if len(g) <= k else rng.sample(g, k))
